@@ -182,6 +182,9 @@ Tx ==
      \/ /\ st \in {"closed", "draining"} /\ e.kind = "close"
         /\ DoSendClose /\ closeFlag' = e.close
         /\ bad' = bad \cup Flag(CanSendClose, "CloseSentWithoutFlag")
+                      \* RFC 9000 10.2.3: what the application said goes out under 1-RTT (0-RTT) protection only;
+                      \* Initial and Handshake packets carry the transport-level APPLICATION_ERROR instead
+                      \cup Flag(~e.appearly, "ApplicationCloseBelowOneRtt")
      \/ /\ st \in {"closed", "draining"} /\ e.kind = "pathchal"
         /\ UNCHANGED lvars
         /\ bad' = bad
